@@ -77,7 +77,7 @@ class Acc:
         j.append((case, result, meta, weight))
         self.ncases += 1
 
-    def flush(self, target=2000000.0):
+    def flush(self, target=5000000.0):
         """target: estimated micro-seconds of kernel time per shard"""
         for (fn, cty, rty), items in self.pending.items():
             cur, w = [], 0.0
@@ -276,6 +276,8 @@ def run_family(rep, acc, kind, elements, boxes, tag, junk, chunk=64, batch=320,
             firsts = [r[0] if both else r for r in results]
             if any(r is not None and 1 < bin(r.v).count('1') <= n for r in firsts):
                 rep.nontrivial((kind, st, tag, ci, bj))
+        if ci % 6 == 5:
+            acc.flush()     # let the kernel start on this family while the library runs the rest
         # scalar form, on the last array built, against the array form of the same box
         arr, _ = arrays[st]
         blist = list(res_by_box.keys())
@@ -400,13 +402,13 @@ def families(rep, tier):
     if not quick:
         extra = [U.flat([rng.choice(P) for _ in range(4)]) for _ in range(12000)]
         lines += extra
-    lbox = box_mix(rng, posL, degL, 40 if quick else 1377, rev_every=4 if quick else 1)
+    lbox = box_mix(rng, posL, degL, 24 if quick else 1377, rev_every=8 if quick else 1)
     yield 'line', lines, lbox, 'polylines<=3', [[1, 1, 5, 3], None, []], \
         dict(oracle_stride=23 if quick else 11, classify_stride=101, scalar_boxes=6 if quick else 12)
     # ---- rings: closed polylines a-b-c-a (incl. degenerate), RingArray
     tri = [U.flat([a, b, c, a]) for a in P for b in P for c in P]
     if quick:
-        tri = rng.sample(tri, 512)
+        tri = rng.sample(tri, 384)
     rings = [None, []] + tri
     yield 'ring', rings, box_mix(rng, posL, degL, 60, rev_every=3), 'closed-triangles', [[1, 1, 5, 3, 1, 1], None], \
         dict(oracle_stride=29, classify_stride=211, scalar_boxes=6)
@@ -473,7 +475,7 @@ def families(rep, tier):
         if quick and k % 3:
             continue
         mp.append([[U.close(r, cw=bool(k & 1), rot=k)]])
-    for _ in range(400 if quick else 6000):
+    for _ in range(300 if quick else 6000):
         a, b = rng.choice(R), rng.choice(R)
         mp.append([[U.close(a, cw=rng.random() < .5)], [U.close(b, cw=rng.random() < .5)]])
     yield 'multipolygon', mp, box_mix(rng, posP, degP, 40, rev_every=4), 'multipolygon-1-2-parts', \
